@@ -11,6 +11,8 @@ import ALV.Lemmas.C12Time
 import ALV.Lemmas.C12Gauss
 import ALV.Lemmas.C12Hist
 import ALV.Lemmas.C12Call
+import ALV.Lemmas.C12Pole
+import ALV.Lemmas.C12Link
 import Mathlib.Analysis.SpecialFunctions.Complex.Arg
 import ALV.Common.Audit
 
@@ -603,6 +605,185 @@ theorem dft_binding {V : Type} (b f n : V) :
     bindDft [b, f] [("freqs", f)] = none ∧ bindDft [b, f] [("norm", n)] = none := by
   simp [bindDft]
 
+/-! ### 10. the dict form of the specification; nan ⇔ the denominator vanishes; poles on the circle -/
+
+/-- **C12.10a** a dict-defined filter as coded is the dict form of the specification (the
+statement of C12.1e with the specification the driver prints named in it). -/
+theorem freq_response_terms_spec {K : Type} [Field K] [DecidableEq K] (num den : Terms K) (w : K)
+    (hw : w ≠ 0) : respOfTerms num den w = respSpecTerms num den w := respOfTerms_eq_spec num den w hw
+
+/-- **C12.10b** the dict form of the specification IS the transfer function of the property: on the
+dict `{k: c_k}` of a dense list (zeros included) and on `Poly(list)`'s stored terms (zeros dropped),
+`evalTerms` is `Σ c_k w^k`, `HspecTerms` is `Hspec`, `respSpecTerms` is `respSpec` — at every point. -/
+theorem terms_spec_eq_dense_spec {K : Type} [Field K] [DecidableEq K] (b a : List K) (w : K) :
+    evalTerms (denseTerms 0 a) w = evalDirect a w ∧ evalTerms (polyFrom 0 a) w = evalDirect a w ∧
+    HspecTerms (denseTerms 0 b) (denseTerms 0 a) w = Hspec b a w ∧
+    HspecTerms (polyFrom 0 b) (polyFrom 0 a) w = Hspec b a w ∧
+    respSpecTerms (denseTerms 0 b) (denseTerms 0 a) w = respSpec b a w ∧
+    respSpecTerms (polyFrom 0 b) (polyFrom 0 a) w = respSpec b a w :=
+  ⟨evalTerms_denseTerms a w, evalTerms_polyFrom a w, HspecTerms_dense b a w, HspecTerms_polyFrom b a w,
+   respSpecTerms_dense b a w, respSpecTerms_polyFrom b a w⟩
+
+/-- **C12.10c** `ZFilter(dict(enumerate(b)), dict(enumerate(a)))` and `ZFilter(b, a)` answer alike. -/
+theorem dict_filter_eq_list_filter {K : Type} [Field K] [DecidableEq K] (b a : List K) (w : K)
+    (hw : w ≠ 0) : respOfTerms (denseTerms 0 b) (denseTerms 0 a) w = respOfFilter b a w := by
+  rw [respOfTerms_eq_spec _ _ _ hw, respOfFilter_eq_spec _ _ _ hw, respSpecTerms_dense]
+
+/-- **C12.10d** "nan where the denominator vanishes", as an equivalence, in every field: the call
+returns nan iff the filter exists and `Σ a_k w^k = 0`; it returns `v` iff the filter exists, the
+denominator does not vanish and `v` is the quotient; there is no third outcome besides the
+constructor's ValueError (the zero test precedes the division: never ZeroDivisionError). -/
+theorem nan_iff_denominator_vanishes {K : Type} [Field K] [DecidableEq K] (b a : List K) (w : K)
+    (hw : w ≠ 0) :
+    (respOfFilter b a w = Resp.nan ↔ (∃ c ∈ a, c ≠ 0) ∧ evalDirect a w = 0) ∧
+    (∀ v, respOfFilter b a w = Resp.val v ↔
+      (∃ c ∈ a, c ≠ 0) ∧ evalDirect a w ≠ 0 ∧ v = evalDirect b w / evalDirect a w) ∧
+    (respOfFilter b a w = Resp.valueError ∨ respOfFilter b a w = Resp.nan ∨
+      ∃ v, respOfFilter b a w = Resp.val v) := by
+  rw [respOfFilter_eq_spec _ _ _ hw]
+  exact ⟨respSpec_eq_nan_iff b a w, fun v => respSpec_eq_val_iff b a w v, respSpec_cases b a w⟩
+
+/-- **C12.10e** over ℂ at `exp(-jω)`: nan iff `Σ a_k e^{-jωk} = 0` (and the filter exists). -/
+theorem nan_iff_complex (b a : List ℂ) (ω : ℝ) :
+    respOfFilter b a (Complex.exp (-(Complex.I * ω))) = Resp.nan ↔
+      (∃ c ∈ a, c ≠ 0) ∧ ∑ k ∈ range a.length, a.getD k 0 * Complex.exp (-(Complex.I * ω * k)) = 0 := by
+  rw [(nan_iff_denominator_vanishes b a _ (Complex.exp_ne_zero _)).1, evalDirect_eq_sum]
+  simp only [cexp_pow]
+
+/-- **C12.10f** the two real points of the circle: at ω = 0 the response is nan iff the denominator
+coefficients sum to zero, at ω = π iff their alternating sum is zero. -/
+theorem nan_at_dc_and_nyquist (b a : List ℂ) :
+    (respOfFilter b a (Complex.exp (-(Complex.I * ((0 : ℝ) : ℂ)))) = Resp.nan ↔
+      (∃ c ∈ a, c ≠ 0) ∧ ∑ k ∈ range a.length, a.getD k 0 = 0) ∧
+    (respOfFilter b a (Complex.exp (-(Complex.I * ((Real.pi : ℝ) : ℂ)))) = Resp.nan ↔
+      (∃ c ∈ a, c ≠ 0) ∧ ∑ k ∈ range a.length, a.getD k 0 * (-1) ^ k = 0) := by
+  have h0 : Complex.exp (-(Complex.I * ((0 : ℝ) : ℂ))) = 1 := by simp
+  have hpi : Complex.exp (-(Complex.I * ((Real.pi : ℝ) : ℂ))) = -1 := by
+    rw [Complex.exp_neg, mul_comm, Complex.exp_pi_mul_I]; norm_num
+  rw [h0, hpi]
+  refine ⟨?_, ?_⟩
+  · rw [(nan_iff_denominator_vanishes b a 1 one_ne_zero).1, evalDirect_eq_sum]
+    simp only [one_pow, mul_one]
+  · rw [(nan_iff_denominator_vanishes b a (-1) (by norm_num)).1, evalDirect_eq_sum]
+
+/-- **C12.10g** a denominator `(1 - r z⁻¹)·q(z⁻¹)`, `q_0 ≠ 0` (a pole at `z = r`; `r = 1`: ω = 0,
+`r = -1`: ω = π): exactly at the pole (`r·w = 1`) the call returns nan whatever the numerator; at
+any other point where `q` does not vanish it returns `b(w) / ((1 - r w) q(w))` — a point NEXT to
+the pole (such as the binary64 value of `exp(-jπ)`, which is not `-1`) gives a large finite value,
+not nan. -/
+theorem pole_exactly_and_nearby {K : Type} [Field K] [DecidableEq K] (b qs : List K) (q0 : K)
+    (hq : q0 ≠ 0) (r w : K) :
+    (r * w = 1 → respOfFilter b (convL [1, -r] (q0 :: qs)) w = Resp.nan) ∧
+    (r * w ≠ 1 → evalDirect (q0 :: qs) w ≠ 0 →
+      respOfFilter b (convL [1, -r] (q0 :: qs)) w
+        = Resp.val (evalDirect b w / ((1 - r * w) * evalDirect (q0 :: qs) w))) := by
+  rw [respOfFilter_factor b qs q0 hq r w]
+  constructor
+  · intro h; simp [h]
+  · intro h hq0
+    have : (1 - r * w) * evalDirect (q0 :: qs) w ≠ 0 :=
+      mul_ne_zero (fun h0 => h (by rw [sub_eq_zero] at h0; exact h0.symm)) hq0
+    simp only [this, if_false]
+
+/-! ### 11. the time domain run taken from C04; `dft` as coded -/
+
+/-- **C12.11a** the two slices run the same filter: C04's specification of calling `ZFilter(b)` (the
+difference equation over unbounded histories, denominator 1, no memory, zero = 0), C04's bounded
+state machine and this slice's FIR loop agree on every coefficient list and every input. -/
+theorem c04_run_is_fir_run {K : Type} [Field K] [DecidableEq K] (b xs : List K) :
+    C04.fspec b [] 1 0 [] [] xs = firRun b xs ∧
+    C04.frun b [] 1 ⟨[], C04.takeP 0 (b.length - 1) []⟩ xs = firRun b xs :=
+  ⟨c04_fspec_eq_firRun b xs, c04_frun_eq_firRun b xs⟩
+
+/-- **C12.11b** steady state on C04's run, every FIR order, every `n ≥ order`, any field: the
+exponential `x_n = u^n` through the filter as C04 specifies it comes out as `freq_response` (at
+`w = 1/u`) times `x_n`; and that `freq_response` is a value, never nan. -/
+theorem steady_state_c04 {K : Type} [Field K] [DecidableEq K] (b : List K) (u : K) (hu : u ≠ 0)
+    (N n : ℕ) (hn : n < N) (hord : b.length ≤ n + 1) :
+    respOfFilter b [1] (1 / u) = Resp.val (evalDirect b (1 / u)) ∧
+    (C04.fspec b [] 1 0 [] [] ((List.range N).map fun k => pw u k)).getD n 0
+      = evalDirect b (1 / u) * pw u n := by
+  constructor
+  · rw [respOfFilter_eq_spec_of_head b [] 1 one_ne_zero]
+    simp [respSpec, Hspec, evalDirect, evalFrom, pw]
+  · rw [c04_fspec_eq_firRun]
+    have hx : (fun k => pw u k) = fun k => u ^ k := funext (pw_eq_pow u)
+    rw [hx, pw_eq_pow]
+    exact firRun_expo b u (1 / u) (by field_simp) N n hn hord
+
+/-- **C12.11c** the same statement as the driver runs it — exact Gaussian rationals, `u` a
+Pythagorean point — read in ℂ: with `ω = arg u`, sample `n ≥ order` of C04's run of
+`x_n = e^{jωn}` is `H(ω)·e^{jωn}`, `H(ω) = Σ b_k e^{-jωk}` being `freq_response(ω)`. -/
+theorem steady_state_gauss (b : List GRat) (u : GRat) (hu : u.re * u.re + u.im * u.im = 1)
+    (N n : ℕ) (hn : n < N) (hord : b.length ≤ n + 1) :
+    Resp.map GRat.toC (respOfFilter b [1] (1 / u))
+      = Resp.val (tf (b.map GRat.toC) (Complex.arg (GRat.toC u))) ∧
+    GRat.toC ((C04.fspec b [] 1 0 [] [] ((List.range N).map fun k => pw u k)).getD n 0)
+      = tf (b.map GRat.toC) (Complex.arg (GRat.toC u))
+          * Complex.exp (Complex.I * (Complex.arg (GRat.toC u)) * n) := by
+  have hu0 : u ≠ 0 := by
+    intro h0; subst h0; simp at hu
+  have hnorm := pythagorean_point_norm u hu
+  have huexp : GRat.toC u = Complex.exp (Complex.I * (Complex.arg (GRat.toC u))) := by
+    have := Complex.norm_mul_exp_arg_mul_I (GRat.toC u)
+    rw [hnorm] at this
+    simp only [Complex.ofReal_one, one_mul] at this
+    rw [mul_comm]; exact this.symm
+  have hw : GRat.toC (1 / u) = Complex.exp (-(Complex.I * (Complex.arg (GRat.toC u)))) := by
+    have : GRat.toC (1 / u) = 1 / GRat.toC u := by
+      have h := map_div₀ GRat.toCHom (1 : GRat) u
+      rw [map_one] at h
+      exact h
+    rw [this, Complex.exp_neg, ← huexp, one_div]
+  have hH : GRat.toC (evalDirect b (1 / u)) = tf (b.map GRat.toC) (Complex.arg (GRat.toC u)) := by
+    rw [tf_eq, ← hw]
+    exact (evalDirect_hom GRat.toCHom b (1 / u)).symm
+  obtain ⟨h1, h2⟩ := steady_state_c04 b u hu0 N n hn hord
+  constructor
+  · rw [h1]; simp only [Resp.map, hH]
+  · rw [h2]
+    have hm : GRat.toC (evalDirect b (1 / u) * pw u n)
+        = GRat.toC (evalDirect b (1 / u)) * GRat.toC u ^ n := by
+      rw [pw_eq_pow]
+      have h := map_mul GRat.toCHom (evalDirect b (1 / u)) (u ^ n)
+      rw [map_pow] at h
+      exact h
+    rw [hm, hH]
+    congr 1
+    rw [huexp, ← Complex.exp_nat_mul]
+    congr 1
+    rw [← huexp]
+    ring
+
+/-- **C12.11d** the unnormalised DFT sum of the impulse response AS C04 RUNS IT, over at least
+`len b` samples, at `w`, is `freq_response(w)` of the FIR filter (any field, in particular the
+Gaussian rationals of the driver). -/
+theorem dft_impulse_response_c04 {K : Type} [Field K] [DecidableEq K] (b : List K) (w : K) (m : ℕ)
+    (hm : b.length ≤ m + 1) :
+    Resp.val (dftSum (fun n => pw w n) (C04.fspec b [] 1 0 [] [] (1 :: List.replicate m 0)))
+      = respOfFilter b [1] w := by
+  rw [c04_fspec_eq_firRun, dft_impulse_response_field b w m hm,
+    respOfFilter_eq_spec_of_head b [] 1 one_ne_zero]
+  simp [respSpec, Hspec, evalDirect, evalFrom, pw]
+
+/-- **C12.11e** `dft` AS CODED (all frequencies, both modes, the ZeroDivisionError included) is
+linear in the block: for blocks of equal length, `dft(c·x + y) = c·dft(x) + dft(y)` bin by bin, and
+the three calls raise together. -/
+theorem dft_linear_as_coded {K φ : Type} [Field K] (kern : φ → ℕ → K) (c : K) (xs ys : List K)
+    (h : xs.length = ys.length) (freqs : List φ) (normalize : Bool) :
+    dft kern (List.zipWith (fun x y => c * x + y) xs ys) freqs normalize =
+      match dft kern xs freqs normalize, dft kern ys freqs normalize with
+      | some X, some Y => some (List.zipWith (fun x y => c * x + y) X Y)
+      | _, _ => none :=
+  dft_linear_coded kern c xs ys h freqs normalize
+
+/-- **C12.11f** the DC bin of the normalised form is the block mean, for every non-empty block, in
+every field, with the kernel the driver runs (`w^n` at `w = 1`). -/
+theorem dft_dc_mean_field {K : Type} [Field K] (blk : List K) (h : blk ≠ []) :
+    dft (fun (w : K) n => pw w n) blk [1] true = some [blk.sum / natC blk.length] := by
+  have hl : blk.length ≠ 0 := by simpa using h
+  simp [dft, hl, dftSum_pw, evalDirect_one]
+
 /-! ### non-vacuity: hypotheses are satisfiable, statements speak about non-trivial inputs -/
 
 example : respOfFilter [(1 : ℚ), 2, 3] [1, 1/2] 1 = Resp.val 4 := by decide +kernel
@@ -656,6 +837,22 @@ example : bindParams ["self", "freq"] [] [("freq", Arg.ofElem (.num (1 : ℚ))),
 example : dftCall (fun (w : ℚ) n => pw w n) .once [1, 2, 3] (some [1, -1, 1]) (some false) = .ok [6, 0, 0] := by
   decide +kernel
 example : dftCall (fun (w : ℚ) n => pw w n) .sized [1, 2, 3] (some [1]) none = .ok [2] := by decide +kernel
+
+-- section 10 / 11
+example : respSpecTerms (denseTerms 0 [(1 : ℚ), 0, 3]) (denseTerms 0 [0, 2, 1]) 2 = Resp.val (13/8) ∧
+    respSpec [(1 : ℚ), 0, 3] [0, 2, 1] 2 = Resp.val (13/8) := by decide +kernel                  -- 10b, a stored zero, a shift
+example : respOfFilter [(1 : GRat)] [1, ⟨-6/5, 0⟩, 1] ⟨3/5, -4/5⟩ = Resp.nan := by decide +kernel   -- 10d: an exact pole at a Pythagorean point
+example : ∃ c ∈ [(1 : GRat), ⟨-6/5, 0⟩, 1], c ≠ 0 := ⟨1, by simp, by decide +kernel⟩
+example : respOfFilter [(2 : ℚ), 1] (convL [1, -(-1)] [1, 2]) (-1) = Resp.nan := by decide +kernel  -- 10g: at the pole ω = π
+example : respOfFilter [(2 : ℚ), 1] (convL [1, -(-1)] [1, 2]) (-1 + 1/1024) = Resp.val (-524800/511) := by
+  decide +kernel                                                                                    -- 10g: next to it
+example : (-1 : ℚ) * (-1 + 1/1024) ≠ 1 ∧ evalDirect [(1 : ℚ), 2] (-1 + 1/1024) ≠ 0 := by decide +kernel
+example : C04.fspec [(1 : ℚ), 2, 0, 3] [] 1 0 [] [] [1, 1, 1, 1, 1] = [1, 3, 3, 6, 6] := by decide +kernel   -- 11a/b, u = 1
+example : C04.fspec [(1 : ℚ), 2] [] 1 0 [] [] ((List.range 4).map fun k => pw (2 : ℚ) k) = [1, 4, 8, 16] ∧
+    evalDirect [(1 : ℚ), 2] (1 / 2) = 2 := by decide +kernel                                        -- 11b: y_n = H·2^n from n = 1
+example : dft (fun (w : ℚ) n => pw w n) (List.zipWith (fun x y => 3 * x + y) [1, 2] [0, 5]) [1, -1] true
+    = some [7, -4] ∧ dft (fun (w : ℚ) n => pw w n) [1, 2] [1, -1] true = some [3/2, -1/2] ∧
+      dft (fun (w : ℚ) n => pw w n) [0, 5] [1, -1] true = some [5/2, -5/2] := by decide +kernel     -- 11e: 3·(3/2) + 5/2 = 7
 
 end ALV.Props.C12
 
